@@ -407,10 +407,13 @@ func (n numDatum) Literal(context string) string {
 		return "Infinity"
 	case math.IsInf(n.num, -1):
 		return "-Infinity"
+	case math.IsNaN(n.num):
+		return "NaN"
 	}
 
-	// ... then the easy ones.
-	return fmt.Sprintf("%v", n.num)
+	// ... then the easy ones: decimal notation without exponent, with as
+	// many digits as needed to identify the number (XPATH section 4.2).
+	return strconv.FormatFloat(n.num, 'f', -1, 64)
 }
 
 func (n numDatum) Nodeset(context string) []xutils.XpathNode {
